@@ -53,12 +53,16 @@ def verify(mdir):
     base = set(json.load(open("/root/.vp/BASELINE.json"))["stable_pass"])
     wt = mk_wt("verify")
     try:
-        rc0, out0 = sh([PY, os.path.join(mdir, "demo.py")], cwd=wt, timeout=600)
+        # the demo is run from a copy inside the scratch worktree, so that both "cwd" and "parent of the
+        # script's directory" resolve `import trie` to the tree under test
+        os.makedirs(os.path.join(wt, "_mut"))
+        shutil.copy(os.path.join(mdir, "demo.py"), os.path.join(wt, "_mut", "demo.py"))
+        rc0, out0 = sh([PY, "_mut/demo.py"], cwd=wt, timeout=600)
         rc, out = sh(["git", "apply", os.path.join(mdir, "patch.diff")], cwd=wt)
         if rc:
             print("patch does not apply:", out)
             return 2
-        rc1, out1 = sh([PY, os.path.join(mdir, "demo.py")], cwd=wt, timeout=600)
+        rc1, out1 = sh([PY, "_mut/demo.py"], cwd=wt, timeout=600)
         imp = sh([PY, "-c", "import trie; print(trie.__file__)"], cwd=wt)[1].strip()
         ok = passes(wt)
         missing = sorted(base - ok)
